@@ -33,6 +33,9 @@ RULE = ("(a) operation sequences on ONE long-lived accountant (spends, slack mov
         "no-argument total() calls, total() immediately before and after a slack change with no spend in between): after "
         "every operation the live total()/len/spent_budget are compared with the KOV reference of the accountant's own "
         "(spent_budget, slack), with the pure function on the same state (bit-identical) and with the Lean model; "
+        "(a') the pure forms total(spent_budget=, slack=s), total(slack=s), total(spent_budget=) queried on accountants with a "
+        "non-zero slack and spends of their OWN, s in {0, 0.0, tiny, own slack, other}: the reference is KOV(the spends "
+        "actually meant, the slack actually passed); "
         "(b) (spends, slack) pairs generated from the seed: 0..200 spends, eps log-uniform in [1e-12,1e3] in several styles "
         "(homogeneous small, mixed, wide, tiny, large, boundary values, eps=0 with delta>0), delta in [0,1] incl. 0, tiny, 1, "
         "slack in [0,1] incl. 0, denormal, tiny, near 1 and 1; each is evaluated by the real total(spent_budget=, slack=) "
@@ -115,7 +118,11 @@ def rel_err(x, ref):
         fx = Fraction(x)
         if ref == 0:
             return 0.0 if fx == 0 else math.inf
-        return float((fx - ref) / ref)
+        q = (fx - ref) / ref
+        try:
+            return float(q)
+        except OverflowError:                       # a grossly wrong total against a denormal reference
+            return math.inf if q > 0 else -math.inf
     with localcontext() as c:
         c.prec = PREC
         if ref == 0:
@@ -521,10 +528,156 @@ def _near_ceiling(seq, upto):
         return False
 
 
+# ---------------------------------------------------------------- the pure function queried on accountants with a state of their own
+
+def _cmp_totalcore(spends, slack, te, td, out):
+    """one `totalcore` answer of the driver against an implementation result"""
+    w = out.split()
+    if w[0] != "ok":
+        return False
+    me, md = b2f(int(w[1])), b2f(int(w[2]))
+    # exp differs by <= 1 ulp between numpy and Lean's libm; in `1 - exp(-eps)` that ulp is an ABSOLUTE 2^-53,
+    # i.e. up to 2^-53 * eps/2 per term of the exp-sum: allow 4 of those on top of 1e-12 relative
+    return (md == td) and ((me == te) if slack == 0 else
+                           gen.rel_close(me, te, 1e-12, 4.5e-16 * sum(e for e, _ in spends)))
+
+
+def gen_host(r):
+    """(ce, cd, own_slack, own_spends): an accountant with a NON-ZERO slack of its own (mostly) and spends of its own"""
+    ce = float(r.choice([float("inf"), float("inf"), 1e6, 1e3]))
+    cd = float(r.choice([1.0, 1.0, 0.5, 0.1, r.uniform(0.01, 1.0)]))
+    own = float(cd * r.choice([r.u01(), r.loguniform(1e-6, 1.0), 0.5, 1e-2, 1e-2])) if r.chance(0.9) else 0.0
+    if cd == 1.0 and own > 0.99:
+        own = 0.5
+    base = r.loguniform(1e-3, 0.2)
+    n = r.randint(0, 60)
+    spends = []
+    for _ in range(n):
+        e = base * (r.uniform(0.5, 1.5) if r.chance(0.5) else 1.0)
+        d = r.choice([0.0, 0.0, 1e-6, cd * r.loguniform(1e-8, 1e-3)])
+        spends.append((float(e), float(d)))
+    return ce, cd, own, spends
+
+
+def make_host(host):
+    ce, cd, own, spends = host
+    with warnings.catch_warnings():
+        warnings.simplefilter("ignore")
+        with np.errstate(all="ignore"):
+            a = dp.BudgetAccountant(ce, cd, own)
+            kept = []
+            for e, d in spends:
+                try:
+                    a.spend(e, d)
+                    kept.append((e, d))
+                except ValueError:
+                    pass
+    return a, kept
+
+
+def host_query(a, kept, own, form, spends, slack):
+    """evaluate one call form on the host; returns ((te, td), the spends actually meant, the slack actually meant)"""
+    with warnings.catch_warnings():
+        warnings.simplefilter("ignore")
+        with np.errstate(all="ignore"):
+            if form == "both":
+                t = a.total(spent_budget=[tuple(x) for x in spends], slack=slack)
+                meant = (list(spends), slack)
+            elif form == "slack-only":
+                t = a.total(slack=slack)
+                meant = (list(kept), slack)
+            else:                                   # "spends-only"
+                t = a.total(spent_budget=[tuple(x) for x in spends])
+                meant = (list(spends), own)
+    return (float(t[0]), float(t[1])), meant[0], meant[1]
+
+
+def check_host(host, form, spends, slack):
+    """None | (signature, what); plus (te, td, meant_spends, meant_slack)"""
+    a, kept = make_host(host)
+    (te, td), ms, msl = host_query(a, kept, host[2], form, spends, slack)
+    bad, _ = judge_kov(te, td, ms, float(msl))
+    call = {"both": f"total(spent_budget=<{len(spends)} spends>, slack={slack!r})", "slack-only": f"total(slack={slack!r})",
+            "spends-only": f"total(spent_budget=<{len(spends)} spends>)"}[form]
+    where = (f"BudgetAccountant({host[0]!r}, {host[1]!r}, slack={host[2]!r}) with {len(kept)} spends of its own: {call} must be the "
+             f"KOV total of ({len(ms)} spends, slack {msl!r})")
+    if bad:
+        sig = bad[0]
+        if sig != SIG_CANCEL and form != "spends-only" and slack == 0:
+            sig = "C05:basic-composition:explicit-zero-slack"
+        elif sig != SIG_CANCEL:
+            sig = sig + ":host-state"
+        return (sig, f"{where}: {bad[1]}"), (te, td, ms, msl)
+    return None, (te, td, ms, msl)
+
+
+HOST_FIXED = [
+    ((float("inf"), 1.0, 1e-2, [(0.1, 0.0)] * 40 + [(0.05, 1e-6)] * 20), "slack-only", [], 0),
+    ((float("inf"), 1.0, 1e-2, [(0.1, 0.0)] * 40 + [(0.05, 1e-6)] * 20), "both", [(0.1, 0.0)] * 40 + [(0.05, 1e-6)] * 20, 0.0),
+    ((float("inf"), 0.5, 0.25, [(0.05, 0.0)] * 30), "spends-only", [(0.02, 0.0)] * 50, None),
+]
+
+
+def host_stream(ctx):
+    """total(spent_budget=…, slack=s) / total(slack=s) / total(spent_budget=…) on accountants that have a non-zero slack and
+    spends of their own: the answer must depend only on the arguments actually meant"""
+    r = ctx.fork("host")
+    items = list(HOST_FIXED)
+    for _ in range(ctx.budget(120, 2500)):
+        host = gen_host(r)
+        ce, cd, own, _ = host
+        for _ in range(4):
+            form = r.choice(["both", "both", "slack-only", "slack-only", "spends-only"])
+            m = r.u01()
+            if m < 0.3:
+                sl = r.choice([0, 0.0])                     # explicit zero, int and float
+            elif m < 0.45:
+                sl = float(r.choice([5e-324, 1e-300, 1e-30, 1e-12]))
+            elif m < 0.6:
+                sl = own
+            else:
+                sl = float(min(cd, 0.9) * r.choice([r.u01(), r.loguniform(1e-9, 1.0)]))
+            if form == "spends-only":
+                sl = None
+            spends = []
+            if form != "slack-only":
+                spends, _, _ = gen_case(r)
+                spends = spends[:80]
+            items.append((host, form, spends, sl))
+    lines, impl = [], []
+    for host, form, spends, sl in items:
+        bad, (te, td, ms, msl) = check_host(host, form, spends, sl)
+        if bad:
+            ctx.violation(bad[0], bad[1], {"kind": "host", "host": [host[0], host[1], host[2], host[3]], "form": form,
+                                           "spends": spends, "slack": sl})
+        ctx.case(("host", form, f2b(host[2]), f2b(msl), hash(tuple(ms)), len(host[3])) if host[2] > 0 and len(ms) >= 2 else None)
+        impl.append((ms, float(msl), te, td))
+        flat = []
+        for e, d in ms:
+            flat += [f2b(e), f2b(d)]
+        lines.append("totalcore " + " ".join(str(x) for x in [f2b(msl)] + flat))
+    h = items[len(HOST_FIXED)]
+    ctx.sample({"host_accountant": {"ceiling": [h[0][0], h[0][1]], "own_slack": h[0][2], "own_spends": len(h[0][3])},
+                "call_form": h[1], "n_spends_passed": len(h[2]), "slack_passed": h[3], "impl_total": impl[len(HOST_FIXED)][2:]})
+    if ctx.searching and ctx.violations:
+        return
+    outs = leanio.run_driver("Accountant", lines)
+    for (host, form, spends, sl), (ms, msl, te, td), out in zip(items, impl, outs):
+        if _cmp_totalcore(ms, msl, te, td, out):
+            ctx.trace_ok()
+        else:
+            ctx.disagree("accountant.total.host", {"host": [host[0], host[1], host[2], len(host[3])], "form": form,
+                                                   "spends": spends, "slack": sl}, out, [te, td])
+    ctx.count("host_queries_compared", len(lines))
+
+
 # ---------------------------------------------------------------- entry points
 
 def check(ctx):
     live_stream(ctx)
+    if ctx.searching and ctx.violations:
+        return
+    host_stream(ctx)
     if ctx.searching and ctx.violations:
         return
     r = ctx.fork("cases")
@@ -553,15 +706,7 @@ def check(ctx):
         return
     outs = leanio.run_driver("Accountant", lines)
     for (spends, slack, style), (te, td), out in zip(cases, impl, outs):
-        w = out.split()
-        ok = w[0] == "ok"
-        if ok:
-            me, md = b2f(int(w[1])), b2f(int(w[2]))
-            # exp differs by <= 1 ulp between numpy and Lean's libm; in `1 - exp(-eps)` that ulp is an ABSOLUTE 2^-53,
-            # i.e. up to 2^-53 * eps/2 per term of the exp-sum: allow 4 of those on top of 1e-12 relative
-            ok = (md == td) and ((me == te) if slack == 0 else
-                                 gen.rel_close(me, te, 1e-12, 4.5e-16 * sum(e for e, _ in spends)))
-        if ok:
+        if _cmp_totalcore(spends, slack, te, td, out):
             ctx.trace_ok()
         else:
             ctx.disagree("accountant.total", {"spends": spends, "slack": slack}, out, [te, td])
@@ -571,14 +716,20 @@ def check(ctx):
 def replay(ctx, data):
     from ..core import unjson_float as u
     d = data["data"]
-    spends = [(float(u(e)), float(u(dl))) for e, dl in d["spends"]]
-    slack = float(u(d["slack"]))
     if d["kind"] == "live":
         def fix(x):
             return [fix(y) for y in x] if isinstance(x, list) else u(x)
         seq = fix(d["seq"])
         _, viol = run_live((float(seq[0]), float(seq[1]), float(seq[2]), seq[3]))
         return viol is not None
+    if d["kind"] == "host":
+        h = d["host"]
+        host = (float(u(h[0])), float(u(h[1])), float(u(h[2])), [(float(u(e)), float(u(x))) for e, x in h[3]])
+        sp = [(float(u(e)), float(u(x))) for e, x in d["spends"]]
+        sl = d["slack"] if d["slack"] is None or isinstance(d["slack"], int) else float(u(d["slack"]))
+        return check_host(host, d["form"], sp, sl)[0] is not None
+    spends = [(float(u(e)), float(u(dl))) for e, dl in d["spends"]]
+    slack = float(u(d["slack"]))
     if d["kind"] == "kov":
         return check_kov(spends, slack)[0] is not None
     if d["kind"] == "perm":
